@@ -3,6 +3,7 @@ package c13
 
 import (
 	"encoding/json"
+	"fmt"
 	"os"
 
 	"verif/core"
@@ -35,4 +36,49 @@ func run(r *core.Run) {
 }
 
 func replay(r *core.Run, raw json.RawMessage) {
+	var probe struct {
+		Part string `json:"part"`
+	}
+	json.Unmarshal(raw, &probe)
+	switch probe.Part {
+	case "hist":
+		var hc HistCase
+		if err := json.Unmarshal(raw, &hc); err != nil {
+			r.Violation("replay|bad-case", err.Error(), nil)
+			return
+		}
+		replayHistory(r, &hc)
+	}
+}
+
+func replayHistory(r *core.Run, hc *HistCase) {
+	for _, wk := range allKinds() {
+		if wk.name != hc.Kind {
+			continue
+		}
+		var path []int
+		for _, n := range hc.Path {
+			found := -1
+			for i, o := range wk.ops {
+				if o.name == n {
+					found = i
+				}
+			}
+			if found < 0 {
+				r.Violation("replay|unknown-op", n, hc)
+				return
+			}
+			path = append(path, found)
+		}
+		c := compileKind(wk)
+		out := runHistory(c, wk, path, defects{}, true)
+		if out.fail != nil {
+			sig, what := classify(compileKind(wk), wk, path, out.fail)
+			r.Violation(sig, what, HistCase{Part: "hist", Kind: wk.name, Path: hc.Path, Failure: out.fail})
+		} else if out.skipped {
+			fmt.Println("replay: history is outside the model domain:", out.skipWhy)
+		}
+		return
+	}
+	r.Violation("replay|unknown-kind", hc.Kind, hc)
 }
